@@ -9,8 +9,10 @@ reamber function these reach, the function body is walked and turned into a list
   EAlloc x             x is a new object (constructor, deepcopy, pandas / numpy call known to build a new object,
                        literal, immutable value)
   EAliasOf x y         x is the object y (x = y, parameter binding, `a or b`, `a if c else b`)
-  ELoad x y            x is something reachable from y (y.attr, y[i], a view such as .values / .to_numpy() / .loc[..],
+  ELoad x y            x is y or something y refers to (y.attr, y[i], a view such as .values / .to_numpy() / .loc[..],
                        an element met while iterating y)
+  EReach x y           x is anything reachable from y at any depth (the target of a write "below" y: generated property
+                       setters, __setitem__ of reamber classes, augmented assignment to an attribute)
   EHold x y            the object x keeps a reference to y (container element, stored attribute, constructor argument)
   EWrite x             the object x is changed in place (attribute / item assignment, augmented assignment,
                        inplace=True, list.append / extend / sort / ..., dict update / setitem, DataFrame setitem ...)
@@ -24,7 +26,7 @@ Parameters (self included) are the ARGUMENTS: variables 0 .. nargs-1.  Coq (Stor
 runs a may-alias analysis over the flat program and decides effect_pureb / effect_ownedb; Props/C14.v re-checks
 `forallb effect_pureb` / `forallb effect_ownedb` on the table generated from the tree that is there NOW.
 
-TRUSTED: this translator and the callee tables below (FRESH_*, VIEW_*, MUTATING_*, SITE_EXEMPTIONS, ...), which say
+TRUSTED: this translator and the callee tables below (BUILTIN_FUNCS, MODULE_FUNCS, METHODS, ...), which say
 what builtin / pandas / numpy callees do.  They are printed into docs/C14.md by `python -m harness.tables.effects`.
 The output text is deterministic (sorted names, ast.unparse)."""
 import ast
@@ -44,22 +46,26 @@ BUILTIN_FUNCS = {
               "Fraction", "namedtuple", "TypeVar", "ValueError", "IndexError", "KeyError", "TypeError", "Exception",
               "AssertionError", "ZeroDivisionError", "NotImplementedError", "AttributeError", "RuntimeError"],
     "shallow": ["list", "dict", "tuple", "set", "frozenset", "sorted", "zip", "enumerate", "reversed", "filter", "map",
-                "iter", "next", "max", "min", "sum", "reduce", "copy", "super", "getattr", "vars"],
+                "sum", "copy"],
+    # the result may BE one of the arguments / one of their elements or attributes
+    "view": ["iter", "next", "max", "min", "reduce", "super", "getattr", "vars"],
 }
 # Functions of imported modules, by the module's canonical name.
 MODULE_FUNCS = {
-    "fresh": ["pandas.concat", "pandas.merge", "pandas.isna", "pandas.notna", "pandas.to_numeric",
+    "fresh": ["pandas.isna", "pandas.notna", "pandas.to_numeric",
               "numpy.where", "numpy.zeros", "numpy.ones", "numpy.arange", "numpy.isnan", "numpy.diff", "numpy.sum",
-              "numpy.concatenate", "numpy.floor", "numpy.ceil", "numpy.round", "numpy.abs", "numpy.argsort",
+              "numpy.floor", "numpy.ceil", "numpy.round", "numpy.abs", "numpy.argsort",
               "numpy.base_repr", "numpy.lcm", "numpy.lcm.reduce", "numpy.isclose", "numpy.max", "numpy.min",
-              "numpy.cumsum", "numpy.unique", "numpy.all", "numpy.any", "numpy.indices",
-              "numpy.triu_indices", "numpy.stack", "numpy.vstack", "numpy.hstack", "numpy.nan_to_num", "numpy.append", "numpy.empty",
+              "numpy.cumsum", "numpy.all", "numpy.any", "numpy.indices",
+              "numpy.triu_indices", "numpy.nan_to_num", "numpy.empty",
               "codecs.encode", "codecs.decode", "copy.deepcopy", "yaml.dump", "yaml.safe_dump",
               "logging.getLogger", "warnings.warn", "math.floor", "math.ceil", "math.isnan", "math.gcd", "math.lcm",
               "datetime.timedelta", "functools.reduce", "bisect.bisect_left", "bisect.bisect_right",
               "unidecode.unidecode", "fractions.Fraction", "collections.namedtuple"],
+    # new frame / array / container; cells of object dtype (lists, strings) and elements are shared with the arguments
     "shallow": ["pandas.DataFrame", "pandas.Series", "pandas.DataFrame.from_dict", "pandas.DataFrame.from_records",
-                "numpy.array", "copy.copy", "itertools.chain", "itertools.groupby"],
+                "pandas.concat", "pandas.merge", "numpy.array", "numpy.concatenate", "numpy.stack", "numpy.vstack",
+                "numpy.hstack", "numpy.append", "numpy.unique", "copy.copy", "itertools.chain", "itertools.groupby"],
     "view": ["numpy.asarray"],
 }
 # Logger-like globals: method calls on them have no effect on any argument.
@@ -71,56 +77,65 @@ INERT_GLOBAL_RECEIVERS = ["log", "logger", "warnings", "logging"]
 METHODS = {
     "fresh": [  # pandas / numpy calls that build a new object holding its own data; str / bytes / number methods
         "sort_values", "sort_index", "reset_index", "drop", "drop_duplicates", "dropna", "fillna", "ffill", "bfill",
-        "astype", "rename", "assign", "merge", "join", "groupby", "agg", "aggregate", "sum", "last", "first", "diff", "shift",
-        "clip", "set_axis", "set_index", "reindex", "describe", "apply", "to_records", "to_dict", "to_frame", "repeat",
+        "astype", "rename", "assign", "merge", "join", "sum", "diff", "shift",
+        "clip", "set_axis", "set_index", "reindex", "describe", "to_records", "repeat",
         "min", "max", "mean", "idxmax", "idxmin", "count", "any", "all", "isna", "notna", "isin", "cumsum", "round",
-        "abs", "unique", "nunique", "value_counts", "transpose", "stack_pd", "unstack", "apply_pd", "mask", "where",
+        "abs", "nunique", "value_counts", "mask", "where",
         "split", "strip", "lstrip", "rstrip", "format", "encode", "decode", "zfill", "upper", "lower", "startswith",
         "endswith", "find", "replace", "index", "as_posix", "is_integer", "as_integer_ratio", "bit_length",
         "__repr__", "__str__", "debug", "info", "warning", "warn", "error", "dump", "item", "nonzero", "argsort", "searchsorted", "flatten"],
     "shallow": [  # new container / lazy iterator over the receiver's elements; tolist of an object column keeps the cells
-        "tolist", "to_list", "items", "keys", "values", "iterrows", "itertuples", "get", "setdefault_ro",
-        "__new__"],
+        "tolist", "to_list", "to_dict", "items", "keys", "values", "iterrows", "itertuples", "__new__",
+        "agg", "aggregate", "apply", "first", "last", "unique", "flatten"],
     "view": [    # may share memory / state with the receiver
-        "to_numpy", "__getattribute__", "__getitem__", "__iter__", "view", "reshape", "ravel", "squeeze", "head", "tail",
-        "take", "T"],
+        "to_numpy", "to_frame", "__getattribute__", "__getitem__", "__iter__", "view", "reshape", "ravel", "squeeze",
+        "head", "tail", "take", "transpose", "groupby", "get", "item"],
     "mutate": [  # list / dict / set / DataFrame in-place methods
         "append", "extend", "insert", "pop", "remove", "clear", "sort", "reverse", "update", "setdefault", "add",
         "discard", "popitem", "__setitem__", "__setattr__", "__delitem__", "insert_col", "fill", "put", "itemset", "resize",
         "writelines", "write_io"],
 }
+# Binary operators whose result is always a new value that keeps no reference to its operands (numbers, arrays, frames;
+# set difference of hashable - immutable - elements).  `+ * | & ^` may build lists / tuples / sets: the result holds the operands.
+FRESH_BINOPS = (ast.Sub, ast.Div, ast.FloorDiv, ast.Mod, ast.Pow, ast.LShift, ast.RShift, ast.MatMult)
+# Containers of immutable elements, by annotation of the attribute they are read from: a shallow copy of one is a full copy.
+IMMUTABLE_ELEMENT_ANNOTATIONS = ["List[str]", "List[int]", "List[float]", "list[str]", "list[int]", "list[float]",
+                                 "Tuple[str]", "List[bool]", "List[bytes]"]
+# dtypes (first component of a `_props` declaration) whose cells are numbers
+NUMERIC_DTYPES = ["float", "int", "bool", "float64", "int64", "float32", "int32"]
 # `x.copy()`: a data copy for pandas / numpy receivers (the receiver expression is recognisably a frame / array, or
 # deep=True is written), a SHALLOW copy (elements shared) otherwise.
 # Attributes that are views of their owner (loads) are the default; these attribute names denote immutable values:
 IMMUTABLE_ATTR_NAMES = ["__class__", "__name__", "__qualname__", "__module__", "columns", "index", "dtypes", "dtype",
-                        "shape", "size", "ndim", "name", "real", "numerator", "denominator", "empty"]
+                        "shape", "size", "ndim"]
 # Annotated dataclass fields of reamber classes whose annotation is one of these are immutable values too
 # (decided on the LIVE source: every declaration of that attribute name in the package must be immutable).
 IMMUTABLE_ANNOTATIONS = ["str", "int", "float", "bool", "bytes", "None", "str or None", "float or None", "int or None",
-                         "Optional[str]", "Optional[int]", "Optional[float]", "str | None", "int | None", "float | None"]
+                         "Optional[str]", "Optional[int]", "Optional[float]", "str | None", "int | None", "float | None",
+                         "Fraction", "Fraction | float", "Fraction | float | None", "float | Fraction"]
 # Attributes that hold a DataFrame / Series / ndarray (used only to read `.copy()` as a data copy and `x[...] = v`
 # as a pandas item assignment rather than a call of a reamber __setitem__).
 FRAME_ATTRS = ["df", "_df", "_stacked", "data"]
 FRAME_RETURNING_METHODS = ["sort_values", "reset_index", "drop", "drop_duplicates", "dropna", "ffill", "bfill", "astype",
-                           "rename", "assign", "merge", "groupby", "agg", "last", "set_index", "to_frame", "copy", "diff",
+                           "rename", "assign", "merge", "agg", "last", "set_index", "to_frame", "copy", "diff",
                            "shift", "clip", "set_axis", "sum", "to_records", "to_numpy"]
 FRAME_RETURNING_FUNCS = ["pandas.concat", "pandas.merge", "pandas.DataFrame", "pandas.Series", "pandas.DataFrame.from_dict",
                          "numpy.zeros", "numpy.ones", "numpy.array", "numpy.where", "numpy.arange"]
-# Reviewed single sites where a store is known to COPY the stored values (no reference is kept).  Keyed by
-# (function, source text of the statement); any edit of the statement drops the exemption.
-SITE_EXEMPTIONS = {
-    ("ConvertBase.cast", "buffer.__setattr__(to_, value)"):
-        "buffer is `target.empty(..)`, a TimedList: __setattr__ with a column name goes through the list_props setter "
-        "`self.df[k] = val`, and pandas copies a 1-D array assigned as a column (the shared-memory probe of the "
-        "harness re-observes this on every converter run); a write to buffer it remains",
-}
+# COLUMN STORES THAT COPY.  `x.__setattr__(<column name>, <values>)` / `setattr(x, ..)` where x is a local variable whose
+# every assignment is `<class>.empty(<n>)` - a new TimedList of defaults (TimedList.empty is the only `empty` method of
+# the package; checked) - goes through the list_props setter `self.df[k] = val`: pandas copies a 1-D array assigned as a
+# column, so x is changed but keeps no reference to the values.  (Object-dtype cells would still be shared; no converter
+# casts such a column, and the shared-memory / list-cell identity probes of the harness re-observe every converter run.)
+COLUMN_STORE_RECEIVER_FROM = "empty"
 # Protocol hooks: defined in reamber, called implicitly by Python syntax (x[i], for .. in x, len(x), x == y, x.attr for a
 # property, copy.deepcopy).  The syntax is translated generically (a load / a fresh value); EVERY such definition in the
 # package is put in the table with its own obligation (pure; __deepcopy__ also owned).
 HOOK_NAMES = ["__getitem__", "__iter__", "__len__", "__eq__", "__ne__", "__lt__", "__le__", "__gt__", "__ge__",
-              "__repr__", "__str__", "__deepcopy__", "__contains__", "__hash__", "__bool__", "__setitem__", "__delitem__"]
+              "__repr__", "__str__", "__deepcopy__", "__contains__", "__hash__", "__bool__"]
+# (x[k] = v and x.<generated property> = v are translated as: x and everything x reaches may change, x keeps v, v may
+#  come to keep what x reaches - all a __setitem__ / setter can do to its receiver and value: no obligation on those)
 # parameters that are not arguments of the operation (protocol scratch objects, the class itself)
-NON_ARGUMENT_PARAMS = {"__deepcopy__": ["memo"], "__setitem__": ["self"], "__delitem__": ["self"]}
+NON_ARGUMENT_PARAMS = {"__deepcopy__": ["memo"]}
 # source directories whose hooks / same-name methods can never be reached from the listed operations
 EXCLUDED_DIRS = ["reamber/algorithms/playField", "reamber/algorithms/plot", "reamber/dummy"]
 
@@ -216,6 +231,7 @@ class Index:
         self.classes = {}      # name -> [(file, chain, node, bases)]
         self.imports = {}      # file -> {alias: dotted}
         self.generated_props = set()
+        self.prop_cells = {}         # generated column property -> set of "immutable"/"mutable" (declared dtype / default)
         self.attr_annotations = {}   # attr -> set(annotation text)
         self.method_names = set()
         base = os.path.join(root, "reamber")
@@ -272,8 +288,34 @@ class Index:
             if isinstance(s, ast.Assign) and len(s.targets) == 1 and isinstance(s.targets[0], ast.Name) \
                     and s.targets[0].id == "_props":
                 self.generated_props |= set(self._props_keys(s.value, cnode.name))
+                self._props_cells(s.value)
             if isinstance(s, ast.AnnAssign) and isinstance(s.target, ast.Name):
                 self.attr_annotations.setdefault(s.target.id, set()).add(ast.unparse(s.annotation).strip("'\""))
+
+    def _props_cells(self, v):
+        """`_props = dict(column=["int", 0], keysounds=["object", []])`: are the cells of that column immutable values?
+        numeric dtypes, or object dtype with a str / bytes default: yes; anything else: no"""
+        pairs = []
+        if isinstance(v, ast.Call) and isinstance(v.func, ast.Name) and v.func.id == "dict":
+            pairs = [(k.arg, k.value) for k in v.keywords]
+        elif isinstance(v, ast.Dict):
+            pairs = [(k.value, val) for k, val in zip(v.keys, v.values) if isinstance(k, ast.Constant)]
+        for name, val in pairs:
+            kind = "mutable"
+            if isinstance(val, (ast.List, ast.Tuple)) and len(val.elts) == 2 and isinstance(val.elts[0], ast.Constant):
+                dt, default = val.elts[0].value, val.elts[1]
+                if dt in NUMERIC_DTYPES:
+                    kind = "immutable"
+                elif dt == "object" and isinstance(default, ast.Constant) and isinstance(default.value, (str, bytes)):
+                    kind = "immutable"
+            elif not isinstance(val, (ast.List, ast.Tuple)):
+                continue        # map_props: name -> list class (not a column)
+            self.prop_cells.setdefault(name, set()).add(kind)
+
+    def immutable_cells(self, attr):
+        """x.<attr> is, for every class of the package declaring it, a column whose cells are immutable values"""
+        kinds = self.prop_cells.get(attr)
+        return bool(kinds) and kinds == {"immutable"} and attr not in self.method_names
 
     @staticmethod
     def _props_keys(v, cname):
@@ -293,6 +335,11 @@ class Index:
             return False
         anns = self.attr_annotations.get(attr)
         return bool(anns) and all(a in IMMUTABLE_ANNOTATIONS for a in anns)
+
+    def immutable_elements_attr(self, attr):
+        anns = self.attr_annotations.get(attr)
+        return bool(anns) and all(a in IMMUTABLE_ELEMENT_ANNOTATIONS for a in anns) \
+            and attr not in self.generated_props and attr not in self.method_names
 
     def defs(self, name, methods_only=False, funcs_only=False):
         out = []
@@ -326,6 +373,36 @@ class Index:
             if d == cname or cname in anc:
                 out |= {d} | anc
         return out or {cname}
+
+    def dataclass_fields(self, cname):
+        """ordered [(field, annotation)] of a dataclass named `cname` whose construction runs the generated __init__
+        (no hand-written __init__ in the class or its ancestors, one definition of the name); else None"""
+        defs = self.classes.get(cname, [])
+        if len(defs) != 1:
+            return None
+        order = []
+
+        def collect(name, seen):
+            ds = self.classes.get(name, [])
+            if len(ds) != 1 or name in seen:
+                return name in ("ABC", "object", "Generic") or name in seen
+            seen.add(name)
+            (_f, _c, node, bases) = ds[0]
+            if not any(ast.unparse(d).split("(")[0].endswith("dataclass") for d in node.decorator_list):
+                return False
+            for b in bases:
+                if not collect(b, seen):
+                    return False
+            for st in node.body:
+                if isinstance(st, (ast.FunctionDef,)) and st.name == "__init__":
+                    return False
+                if isinstance(st, ast.AnnAssign) and isinstance(st.target, ast.Name):
+                    ann = ast.unparse(st.annotation).strip("'\"")
+                    if ann.startswith("ClassVar"):
+                        continue
+                    order[:] = [(k, a) for k, a in order if k != st.target.id] + [(st.target.id, ann)]
+            return True
+        return order if collect(cname, set()) and order else None
 
     def inits(self, cname=None, subclasses=False):
         """__init__ / __post_init__ a construction of class `cname` may run (None: of any class)"""
@@ -434,7 +511,7 @@ class Translator:
 
     def bind(self, x, src):
         """x receives a value with these sources"""
-        if not src or all(k == H for k, _ in src):
+        if not src or any(k == H for k, _ in src):
             self.emit("alloc", x)
         for k, v in uniq(src):
             if v == x and k == A:
@@ -508,6 +585,13 @@ class Translator:
     @staticmethod
     def _assignments(fnode):
         """name -> list of value expressions assigned to it by plain `name = expr` (None for any other binding)"""
+        out = Translator._assignments_in(fnode)
+        for p in fnode.args.posonlyargs + fnode.args.args + fnode.args.kwonlyargs:
+            out.setdefault(p.arg, []).append(None)
+        return out
+
+    @staticmethod
+    def _assignments_in(fnode):
         out = {}
         for n in ast.walk(fnode):
             if isinstance(n, ast.Assign):
@@ -534,8 +618,6 @@ class Translator:
                                 out.setdefault(m.id, []).append(None)
             elif isinstance(n, ast.NamedExpr):
                 out.setdefault(n.target.id, []).append(None)
-        for p in fnode.args.posonlyargs + fnode.args.args + fnode.args.kwonlyargs:
-            out.setdefault(p.arg, []).append(None)
         return out
 
     # ---- light, purely syntactic type evidence (only used to pick between two sound-enough readings, see tables)
@@ -565,10 +647,16 @@ class Translator:
                 targets = self.ix.defs(f.attr, methods_only=True)
                 if targets and all(self._returns_container(t, depth + 1) for t in targets):
                     return True
-        if isinstance(e, ast.Name) and e.id in self.locals and e.id not in self.fn.pos:
+        if isinstance(e, ast.Name) and e.id in self.locals and e.id not in self.fn.pos and depth < 6:
+            busy = self.__dict__.setdefault("_cont_busy", set())
+            if e.id in busy:
+                return True
             vals = self.assign_exprs.get(e.id, [None])
-            return bool(vals) and all(v is not None and v is not e and self.evident_container(v, depth + 1) for v in vals) \
-                if depth < 4 else False
+            busy.add(e.id)
+            try:
+                return bool(vals) and all(v is not None and self.evident_container(v, depth + 1) for v in vals)
+            finally:
+                busy.discard(e.id)
         return False
 
     def _returns_container(self, fn, depth):
@@ -597,10 +685,52 @@ class Translator:
             if isinstance(v, ast.Attribute) and v.attr in ("loc", "iloc", "at", "iat"):
                 v = v.value
             return self.evident_frame(v, depth)
-        if isinstance(e, ast.Name) and e.id in self.locals and e.id not in self.fn.pos and depth < 4:
+        if isinstance(e, ast.Name) and e.id in self.locals and e.id not in self.fn.pos and depth < 6:
+            # every assignment to the name builds a frame (a name defined from itself, df = df.drop(..), is assumed so
+            # while its other assignments are checked)
+            busy = self.__dict__.setdefault("_frame_busy", set())
+            if e.id in busy:
+                return True
             vals = self.assign_exprs.get(e.id, [None])
-            return bool(vals) and all(v is not None and self.evident_frame(v, depth + 1) for v in vals)
+            busy.add(e.id)
+            try:
+                return bool(vals) and all(v is not None and self.evident_frame(v, depth + 1) for v in vals)
+            finally:
+                busy.discard(e.id)
         return False
+
+    def elements_immutable(self, e, depth=0):
+        """iterating / unpacking / indexing the value of e yields immutable values only: a column declared numeric (or
+        object with a str default) by every item class (`_props`), an attribute annotated List[str].., arithmetic on
+        such columns, their .tolist() / .to_numpy() / .astype(..), a property of the package that returns such a value"""
+        if depth > 3:
+            return False
+        if isinstance(e, ast.Attribute):
+            if self.ix.immutable_cells(e.attr) or self.ix.immutable_elements_attr(e.attr):
+                return True
+            getters = [fn for fn in self.ix.funcs.get(e.attr, []) if fn.is_property and not fn.is_stub]
+            if getters and len(getters) == len([fn for fn in self.ix.funcs.get(e.attr, []) if not fn.setter_of and not fn.is_stub]):
+                ok = True
+                for fn in getters:
+                    rets = [n for n in ast.walk(fn.node) if isinstance(n, ast.Return)]
+                    ok = ok and bool(rets) and all(r.value is not None and self.elements_immutable(r.value, depth + 1) for r in rets)
+                return ok
+            return False
+        if isinstance(e, ast.BinOp):
+            l, r = self.elements_immutable(e.left, depth + 1), self.elements_immutable(e.right, depth + 1)
+            scalar = lambda x: isinstance(x, ast.Constant) or isinstance(x, ast.Name)
+            return (l and (r or scalar(e.right))) or (r and scalar(e.left))
+        if isinstance(e, ast.Call) and isinstance(e.func, ast.Attribute) and e.func.attr in ("tolist", "to_numpy", "astype", "to_list") \
+                and not e.args:
+            return self.elements_immutable(e.func.value, depth + 1)
+        return False
+
+    def ev_elements(self, e):
+        """sources of the ELEMENTS of e"""
+        src = self.ev(e)
+        if self.elements_immutable(e):
+            return []
+        return load_of(src)
 
     # ---- expressions -> sources
     def ev(self, e):
@@ -646,10 +776,13 @@ class Translator:
         return []
 
     def e_Starred(self, e):
-        return load_of(self.ev(e.value))
+        return self.ev_elements(e.value)
 
     def e_BinOp(self, e):
-        return hold_of(self.ev(e.left) + self.ev(e.right))
+        src = self.ev(e.left) + self.ev(e.right)
+        if isinstance(e.op, FRESH_BINOPS):
+            return []        # arithmetic: a new number / array / frame (trusted: see FRESH_BINOPS)
+        return hold_of(src)  # + * | & ^ : may be list / tuple / set building, the result keeps the operands' elements
 
     def e_UnaryOp(self, e):
         self.ev(e.operand)
@@ -723,13 +856,21 @@ class Translator:
     def iter_target(self, target, it):
         """for <target> in <it>: elements are loads of the iterable; the first component of `.items()` pairs (a dict
         key) and of `enumerate(..)` pairs (a counter) is an immutable value"""
-        src = load_of(self.ev(it))
+        if isinstance(it, ast.Call) and isinstance(it.func, ast.Name) and it.func.id == "zip" and "zip" not in self.locals \
+                and not it.keywords and isinstance(target, (ast.Tuple, ast.List)) and len(target.elts) == len(it.args) \
+                and not any(isinstance(x, ast.Starred) for x in list(target.elts) + list(it.args)):
+            for tg, a in zip(target.elts, it.args):          # for a, b in zip(A, B): a from A, b from B
+                self.assign_target(tg, self.ev_elements(a), weak=True)
+            return
+        src = self.ev_elements(it)
         first_immutable = isinstance(it, ast.Call) and (
             (isinstance(it.func, ast.Attribute) and it.func.attr == "items" and not it.args) or
             (isinstance(it.func, ast.Name) and it.func.id == "enumerate" and "enumerate" not in self.locals))
         if first_immutable and isinstance(target, (ast.Tuple, ast.List)) and len(target.elts) == 2 \
                 and not any(isinstance(x, ast.Starred) for x in target.elts):
             self.assign_target(target.elts[0], [], weak=True)
+            if isinstance(it.func, ast.Name) and it.args and self.elements_immutable(it.args[0]):
+                src = []
             self.assign_target(target.elts[1], src, weak=True)
         else:
             self.assign_target(target, src, weak=True)
@@ -900,7 +1041,16 @@ class Translator:
         pos, kw, star = self._args(call, recv_src)
         x = self.new()
         self.emit("alloc", x)
-        for k, v in hold_of(self._all(pos, kw, star)):
+        fields = self.ix.dataclass_fields(cname) if (cname and not subclasses and not star) else None
+        if fields is not None and len(pos) <= len(fields) and all(k in dict(fields) for k in kw):
+            # generated __init__ of a dataclass: a field annotated with an immutable type receives a value, not a reference
+            held = []
+            for (fname, ann), src in list(zip(fields, pos)) + [((k, dict(fields)[k]), v) for k, v in kw.items()]:
+                if ann not in IMMUTABLE_ANNOTATIONS:
+                    held += src
+        else:
+            held = self._all(pos, kw, star)
+        for k, v in hold_of(held):
             self.emit("hold", x, v)
         targets = []
         for fn in self.ix.inits(cname, subclasses):
@@ -986,7 +1136,12 @@ class Translator:
         allsrc = self._all(pos, kw, star)
         if name in BUILTIN_FUNCS["fresh"]:
             return []
+        if name in BUILTIN_FUNCS["view"]:
+            return uniq(load_of(allsrc) + allsrc)
         if name in BUILTIN_FUNCS["shallow"]:
+            if name in ("list", "tuple", "set", "frozenset", "sorted") and len(e.args) == 1 and not e.keywords \
+                    and isinstance(e.args[0], ast.Attribute) and self.ix.immutable_elements_attr(e.args[0].attr):
+                return []        # a new container of immutable elements
             return hold_of(load_of(allsrc)) + hold_of(allsrc)
         self.unknown(e, "callee " + name)
         return []
@@ -1062,7 +1217,6 @@ class Translator:
                 self.call_targets(x, cands_b)
                 out.append((A, x))
         # 2. builtin / pandas / numpy meaning of that name
-        site = (self.fn.short, text)
         if meth == "copy":
             known = True
             deep = any(k.arg == "deep" and isinstance(k.value, ast.Constant) and k.value.value is True for k in e.keywords)
@@ -1078,17 +1232,20 @@ class Translator:
             out += load_of(recv + allsrc)
         elif meth in METHODS["mutate"]:
             known = True
+            column_copy = meth == "__setattr__" and self._from_empty(recv_e)
             t = self.tmp(recv)
             self.emit("write", t)
             deep = meth in ("__setitem__", "__setattr__", "__delitem__", "__delattr__") and not (container or frame)
             if deep:
                 # may run a reamber __setitem__ / a generated property setter: a write below the object
                 d = self.new()
-                self.emit("load", d, t)
+                self.emit("reach", d, t)
                 self.emit("write", d)
-            if site in SITE_EXEMPTIONS:
-                pass
-            else:
+                if not column_copy:
+                    for k, v in hold_of(allsrc):
+                        self.emit("hold", d, v)
+                        self.emit("hold", v, d)
+            if not column_copy:
                 for k, v in hold_of(allsrc):
                     self.emit("hold", t, v)
             out += load_of(recv)
@@ -1098,6 +1255,19 @@ class Translator:
         if not known:
             self.unknown(e, "method ." + meth)
         return uniq(out)
+
+    def _from_empty(self, e):
+        """e is a local variable whose every assignment is `<something>.empty(..)`, and `empty` is, in the whole
+        package, only the TimedList classmethod (see COLUMN_STORE_RECEIVER_FROM)"""
+        if not (isinstance(e, ast.Name) and e.id in self.locals and e.id not in self.fn.pos):
+            return False
+        vals = self.assign_exprs.get(e.id, [None])
+        defs = self.ix.defs(COLUMN_STORE_RECEIVER_FROM, methods_only=True)
+        if not defs or any(not (fn.kind == "class" and fn.cls == "TimedList") for fn in defs):
+            return False
+        return bool(vals) and all(
+            v is not None and isinstance(v, ast.Call) and isinstance(v.func, ast.Attribute)
+            and v.func.attr == COLUMN_STORE_RECEIVER_FROM for v in vals)
 
     # ---- assignment targets
     def assign_target(self, t, src, weak=True, aug=False):
@@ -1132,11 +1302,15 @@ class Translator:
         self.emit("write", b)
         if v is not None:
             self.emit("hold", b, v)
+        if self.evident_frame(t.value):
+            return      # frame.col = v / frame.col op= v : pandas sets a column of that frame, nothing below it
+        if aug and not generated and not setters and self.ix.immutable_attr(attr):
+            return      # x.field op= v on a field annotated as an immutable value: the attribute is re-bound, nothing changes in place
         if generated or aug:
             # a generated property setter writes below the object (self.df[k] = v, self.objs[k].df = v.df,
             # stacker[k] = v -> _update()); an augmented assignment may also change the old value in place
             d = self.new()
-            self.emit("load", d, b)
+            self.emit("reach", d, b)
             self.emit("write", d)
             if v is not None:
                 self.emit("hold", d, v)
@@ -1178,19 +1352,31 @@ class Translator:
             self.emit("hold", b, v)
         if aug:
             d = self.new()
-            self.emit("load", d, b)
+            self.emit("load", d, b)      # x[k] op= v may change the old element in place
             self.emit("write", d)
         if not (self.evident_container(recv_e) or self.evident_frame(recv_e)):
-            # may be a reamber __setitem__ (hook: changes only what its receiver reaches): a write below the object
+            # may be a reamber __setitem__: everything the receiver reaches may change and be linked with the value
             d = self.new()
-            self.emit("load", d, b)
+            self.emit("reach", d, b)
             self.emit("write", d)
             if v is not None:
                 self.emit("hold", d, v)
+                self.emit("hold", v, d)
 
     # ---- statements
     def block(self, stmts, top=False):
-        for s in stmts:
+        for i, s in enumerate(stmts):
+            if top and isinstance(s, (ast.Assign, ast.AnnAssign)):
+                # type evidence for a name re-bound at the top level: only the assignments of this segment count
+                tg = s.targets if isinstance(s, ast.Assign) else [s.target]
+                for t in tg:
+                    if isinstance(t, ast.Name) and t.id not in self.lazy_captured:
+                        j = i + 1
+                        while j < len(stmts) and not (isinstance(stmts[j], ast.Assign) and any(
+                                isinstance(x, ast.Name) and x.id == t.id for x in stmts[j].targets)):
+                            j += 1
+                        seg = ast.Module(body=list(stmts[i:j]), type_ignores=[])
+                        self.assign_exprs[t.id] = self._assignments_in(seg).get(t.id, [None])
             m = getattr(self, "s_" + type(s).__name__, None)
             if m is None:
                 self.unknown(s, "statement " + type(s).__name__)
@@ -1341,7 +1527,7 @@ class Translator:
                     b = self.tmp(base)
                     self.emit("write", b)
                     d = self.new()
-                    self.emit("load", d, b)
+                    self.emit("reach", d, b)
                     self.emit("write", d)
                 else:
                     self.unknown(s, "del on a module-level object")
@@ -1378,6 +1564,17 @@ def build(root=None):
             raise ValueError(f"listed operation {name} not found at {key}")
         listed_names[fn.key] = (name, is_copy)
         want(fn)
+    # a listed METHOD stands for every definition of that method in the class family (overrides in the games'
+    # subclasses are what a call on a chart / list of that game runs): same obligations
+    for name, key, is_copy in list(LISTED):
+        fn0 = next(f for k, f in ix.by_key.items() if (k == key or k.startswith(key + "#")) and not f.is_stub)
+        if fn0.cls is None:
+            continue
+        fam = ix.family(fn0.cls)
+        for fn in ix.defs(fn0.name, methods_only=True):
+            if fn.cls in fam and fn.key not in listed_names and len(fn.clschain) == 1:
+                listed_names[fn.key] = (fn.short, is_copy)
+                want(fn)
     hooks = set()
     for hn in HOOK_NAMES:
         for fn in ix.defs(hn, methods_only=True):
@@ -1395,7 +1592,7 @@ def build(root=None):
         fn = ix.by_key[key]
         tr = Translator(ix, fn, want).run()
         name, is_copy = listed_names.get(key, (None, False))
-        entries[key] = dict(name=name or fn.short, key=key, listed=key in listed_names, copy=is_copy, hook=key in hooks,
+        entries[key] = dict(name=name or fn.short, key=key, lineno=fn.node.lineno, listed=key in listed_names, copy=is_copy, hook=key in hooks,
                             nargs=tr.nargs, ret=tr.ret, nvars=tr.nvars, steps=tr.steps, params=dict(tr.param_var))
     return [entries[k] for k in order], ix
 
@@ -1414,7 +1611,8 @@ TYPES = """(* syntax of what the translator (harness/tables/effects.py) emits fo
 Inductive estep :=
 | EAlloc (x : N)                 (* x is a new object / immutable value *)
 | EAliasOf (x y : N)             (* x is the object y *)
-| ELoad (x y : N)                (* x is something reachable from y: attribute, element, view *)
+| ELoad (x y : N)                (* x is y or something y refers to: attribute, element, view *)
+| EReach (x y : N)               (* x is anything reachable from y, at any depth (target of a write "below" y) *)
 | EHold (x y : N)                (* the object x keeps a reference to y *)
 | EWrite (x : N)                 (* the object x is changed in place *)
 | ECallListed (x : N) (targets : list (N * list (N * N)))   (* x := f(..), every f the name may denote: (index, [(param, arg)]) *)
@@ -1436,6 +1634,8 @@ def step_text(st, pos_of, entry_of):
         return f"ELoad {n(st[1])} {n(st[2])}"
     if k == "hold":
         return f"EHold {n(st[1])} {n(st[2])}"
+    if k == "reach":
+        return f"EReach {n(st[1])} {n(st[2])}"
     if k == "write":
         return f"EWrite {n(st[1])}"
     if k == "unknown":
@@ -1477,10 +1677,25 @@ def generate():
     return lines
 
 
-def op_index():
-    """entry name -> index in c14_effects (used by harness/props/c14.py to name the operation in a case)"""
-    entries, _ = build()
-    return {e["name"]: i for i, e in enumerate(entries) if e["listed"]}
+_FUNC_INDEX = None
+
+
+def function_index(func):
+    """index in c14_effects of the LISTED program translated from the source of this (live) function object; KeyError when
+    the function has no listed program (used by harness/props/c14.py to name what a call ran: Python's own dispatch
+    picks the definition, the table is looked up by file and qualified name)"""
+    global _FUNC_INDEX
+    if _FUNC_INDEX is None:
+        entries, _ = build()
+        _FUNC_INDEX = {}
+        for i, e in enumerate(entries):
+            if e["listed"]:
+                _FUNC_INDEX.setdefault(e["key"].split("#")[0], i)
+    func = getattr(func, "__func__", func)
+    func = getattr(func, "fget", func) or func
+    code = func.__code__
+    rel = os.path.relpath(os.path.realpath(code.co_filename), os.path.join(os.path.realpath(repo_root()), "reamber"))
+    return _FUNC_INDEX[rel + ":" + func.__qualname__]
 
 
 def tables_markdown():
@@ -1498,15 +1713,137 @@ def tables_markdown():
                + "; dataclass fields annotated " + ", ".join(f"`{x}`" for x in IMMUTABLE_ANNOTATIONS))
     out.append("**frame attributes**: " + ", ".join(f"`{x}`" for x in FRAME_ATTRS))
     out.append("**hooks**: " + ", ".join(f"`{x}`" for x in HOOK_NAMES))
-    out.append("**site exemptions**:")
-    for (fn, txt), why in SITE_EXEMPTIONS.items():
-        out.append(f"- `{fn}`: `{txt}` - {why}")
+    out.append("**column stores that copy**: `x.__setattr__(column, values)` where every assignment of the local `x` is "
+               f"`<class>.{COLUMN_STORE_RECEIVER_FROM}(n)` (a new TimedList): x is changed, keeps no reference to the values")
     return "\n".join(out)
+
+
+
+# ------------------------------------------------------------------------------------------------ diagnostics
+# NOT part of the check and NOT trusted: a Python mirror of Store/EffectsInline.v (`inline`) and Store/Effects.v (the
+# iteration), with provenance, to see WHY the analysis calls an operation impure / not owned:
+#     python -m harness.tables.effects --explain <operation name> [<repo root>]
+DEPTH = 12
+ARG = "ARG"
+
+def flatten(ents, ent):
+    bykey = {e["key"]: e for e in ents}
+    flat, names = [], {}
+    counter = [ent["nvars"]]
+    def vname(e, v):
+        inv = {vv: k for k, vv in e["params"].items()}
+        return inv.get(v, "ret" if v == e["ret"] else f"v{v}")
+    def inl(fuel, e, base, chain, stack):
+        if fuel == 0:
+            flat.append(("unknown", None, None, chain + ("DEPTH",))); return
+        for v in range(e["nvars"]):
+            names[base + v] = "/".join(chain) + ":" + vname(e, v)
+        for st in e["steps"]:
+            k = st[0]
+            if k in ("alloc", "write"):
+                flat.append((k, base + st[1], None, chain))
+            elif k in ("alias", "load", "hold", "reach"):
+                flat.append((k, base + st[1], base + st[2], chain))
+            elif k == "unknown":
+                flat.append(("unknown", None, None, chain + (st[1],)))
+            elif k == "call":
+                for key, binds in st[2]:
+                    g = bykey[key]
+                    act = dict(stack).get(key)
+                    if act is not None:
+                        for p, a in binds:
+                            flat.append(("alias", act + g["params"][p], base + a, chain + ("rec-bind " + g["name"],)))
+                        flat.append(("alias", base + st[1], act + g["ret"], chain + ("rec-ret " + g["name"],)))
+                    else:
+                        b = counter[0]; counter[0] += g["nvars"]
+                        for p, a in binds:
+                            flat.append(("alias", b + g["params"][p], base + a, chain + ("bind " + g["name"],)))
+                        inl(fuel - 1, g, b, chain + (g["name"],), stack + [(key, b)])
+                        flat.append(("alias", base + st[1], b + g["ret"], chain + ("ret " + g["name"],)))
+    inl(DEPTH, ent, 0, (ent["name"],), [(ent["key"], 0)])
+    return flat, names
+
+def solve(flat, nargs):
+    pts, heap, why = {}, {}, {}
+    def P(x): return pts.setdefault(x, set())
+    def Hh(o): return {ARG} if o == ARG else heap.setdefault(o, set())
+    def reach(s):
+        out = set(s)
+        for o in s: out |= Hh(o)
+        return out
+    for i in range(nargs):
+        P(i).add(ARG); why[("p", i, ARG)] = None
+    changed = True
+    rounds = 0
+    while changed:
+        changed = False; rounds += 1
+        for idx, (k, x, y, ch) in enumerate(flat):
+            if k == "alloc":
+                if ("s", x) not in P(x): P(x).add(("s", x)); changed = True
+            elif k == "alias":
+                for o in list(P(y)):
+                    if o not in P(x): P(x).add(o); why[("p", x, o)] = (("p", y, o), idx); changed = True
+            elif k == "load":
+                for o in list(P(y)):
+                    if o not in P(x): P(x).add(o); why[("p", x, o)] = (("p", y, o), idx); changed = True
+                    for o2 in list(Hh(o)):
+                        if o2 not in P(x): P(x).add(o2); why[("p", x, o2)] = (("h", o, o2) if o != ARG else ("p", y, o), idx); changed = True
+            elif k == "reach":
+                for o in list(P(y)):
+                    if o not in P(x): P(x).add(o); why[("p", x, o)] = (("p", y, o), idx); changed = True
+                for o in list(P(x)):
+                    for o2 in list(Hh(o)):
+                        if o2 not in P(x): P(x).add(o2); why[("p", x, o2)] = (("h", o, o2) if o != ARG else ("p", x, o), idx); changed = True
+            elif k == "hold":
+                for o in list(P(x)):
+                    if o == ARG: continue
+                    for o1 in list(P(y)):
+                        if o1 not in Hh(o): Hh(o).add(o1); why[("h", o, o1)] = (("p", y, o1), idx); changed = True
+    return pts, heap, why, rounds
+
+def run(root, opname, show=3):
+    ents, ix = build(root)
+    ent = next(e for e in ents if e["name"] == opname and (e["listed"] or e["hook"]))
+    flat, names = flatten(ents, ent)
+    RD = -1
+    names[RD] = "everything-reachable-from-result"
+    flat.append(("reach", RD, ent["ret"], ("result",)))
+    pts, heap, why, rounds = solve(flat, ent["nargs"])
+    def nm(v): return names.get(v, v)
+    def fact(f):
+        if f[0] == "p": return f"{nm(f[1])} may be {f[2] if f[2]==ARG else 'site@'+str(nm(f[2][1]))}"
+        return f"site@{nm(f[1][1])} refers to {f[2] if f[2]==ARG else 'site@'+str(nm(f[2][1]))}"
+    def explain(f, limit=40):
+        n = 0
+        while f is not None and n < limit:
+            w = why.get(f)
+            if w is None:
+                print("        ", fact(f), "  (argument)"); break
+            src, idx = w
+            st = flat[idx] if idx >= 0 else ("closure", None, None, ())
+            print("        ", fact(f), f"   <- {st[0]} in {'/'.join(st[3][-2:])}")
+            f = src; n += 1
+    print(f"== {opname}: {len(flat)} flat steps, nargs={ent['nargs']}, rounds={rounds}, max pts={max(map(len, pts.values()))}, max heap={max([len(h) for h in heap.values()] or [0])}")
+    bad = 0
+    for (k, x, y, ch) in flat:
+        if k == "unknown":
+            print("  UNKNOWN", ch); bad += 1
+        if k == "write" and ARG in pts.get(x, ()):
+            bad += 1
+            if bad <= show:
+                print("  WRITE to", nm(x), "in", "/".join(ch))
+                explain(("p", x, ARG))
+    print("  flagged writes/unknowns:", bad)
+    r = ent["ret"]
+    if ARG in pts.get(RD, ()):
+        print("  RESULT reaches argument state"); explain(("p", RD, ARG))
 
 
 if __name__ == "__main__":
     if len(sys.argv) > 1 and sys.argv[1] == "--tables":
         print(tables_markdown())
+    elif len(sys.argv) > 2 and sys.argv[1] == "--explain":
+        run(sys.argv[3] if len(sys.argv) > 3 else repo_root(), sys.argv[2], 5)
     else:
         ents, _ = build(sys.argv[1] if len(sys.argv) > 1 else None)
         for i, e in enumerate(ents):
